@@ -53,13 +53,15 @@ func checkC08(p *Program, r *Result) {
 		"(C08.a) each counter of Statistics has exactly one increment-by-one site, in the function that emits that record kind, outside any loop, and every successful return that follows the record's sink writes is dominated by it; " +
 		"(C08.m) WriteMessage's 'first message' test reads MessageCount after the increment; (C08.b) the fold of a chunk's time range into the statistics is guarded by a has-messages test and disabled while per-message accounting is active " +
 		"(0 is the spec's no-message sentinel and a legal log time); (C08.c) Reader.Info fills every field of Info from the summary table of the same kind, and the summary pass has an arm for every record kind allowed in the summary, " +
-		"each storing into its table; (C08.d) the Statistics record layout equals the specification (E1)."
+		"each storing into its table; (C08.t) every possibly successful return of WriteMessage that follows the write of the message record has passed the comparisons of the log time with Statistics.MessageStartTime/MessageEndTime; (C08.d) the Statistics record layout equals the specification (E1)."
 	r.NotDecided = []string{"the numeric aggregates on concrete workloads"}
 	r.rule("C08.a", "one increment site per counter, executed once per successfully written record", 7)
 	r.rule("C08.m", "first-message test evaluated after the message is counted", 1)
 	r.rule("C08.b", "chunk time-range fold is guarded (has messages, direct-chunk mode only)", 2)
 	r.rule("C08.c", "Info is populated from every summary table; every summary record kind has a handler", 14)
 	r.rule("C08.d", "Statistics record layout equals the spec", 3)
+	r.rule("C08.t", "every successfully written message is folded into the statistics time range", 2)
+	checkTimeFoldOnEveryPath(p, r, "C08.t")
 
 	spec := sinkSpec()
 	R := p.reachSet(spec)
